@@ -80,6 +80,7 @@ type Case struct {
 	InitT []TState `json:"init_tables"` // table state before the first run (absent tables: "<initial>")
 	Runs  []Run    `json:"runs"`
 	Conc  *Conc    `json:"conc,omitempty"` // after the runs: concurrent instances on the same database (conc.go)
+	After []Run    `json:"after"`          // sequential runs after the concurrent instances
 }
 
 // ---------------------------------------------------------------- fake connection
@@ -313,8 +314,7 @@ func runCase(c *Case) {
 	if c.InitT == nil {
 		c.InitT = []TState{}
 	}
-	for i := range c.Runs {
-		r := &c.Runs[i]
+	doRun := func(r *Run) {
 		if r.Cfg.Days == nil {
 			r.Cfg.Days = []Policy{}
 		}
@@ -328,6 +328,17 @@ func runCase(c *Case) {
 		}
 		r.State = f.state()
 	}
+	for i := range c.Runs {
+		doRun(&c.Runs[i])
+	}
+	defer func() {
+		for i := range c.After {
+			doRun(&c.After[i])
+		}
+		if c.After == nil {
+			c.After = []Run{}
+		}
+	}()
 	if c.Init == nil {
 		c.Init = []SRow{}
 	}
